@@ -616,8 +616,19 @@ def r4(ctx):
             ctx.violation(R, TRYF + ':side-ep', 'side to move stores %s; set_ep routed correctly: %s' % (vals, ok_ep), w)
 
 
+def r7(ctx):
+    """R7 ACCEPTS-ITS-OWN-OUTPUT (= C07.R2): text -> Board ends in is_sane(); "parsing that text gives back the position" needs
+    is_sane to reject nothing but the required conjuncts (an extra, wrong rejection turns the library's own FEN into an error)."""
+    from . import c07
+    from ..bb import bb
+    bb(('unit',), ctx.an())
+    sub = Sub(ctx, {'C07.R2': 'C06.R7'})
+    c07.r2(sub)
+
+
 def run(ctx):
     r1_r5(ctx)
     r2(ctx)
     r3(ctx)
     r4(ctx)
+    r7(ctx)
